@@ -129,6 +129,37 @@ class Env:
             if not ok:
                 self.conc_failures.append(label)
 
+    # ---- obligations about the path condition itself (uniformity arguments, C33)
+    def pc_subst(self, pairs):
+        """sym mode: the current path condition with variables renamed (pairs of SymInt variables) as a SymBool.
+        The path condition may mention declared variables only (no auxiliary definitions), otherwise Unmodelled."""
+        import z3
+        from vf.symx import Ctx, SymBool, Unmodelled
+        ctx = Ctx.cur
+        pcs = z3.And(*ctx.pc) if ctx.pc else z3.BoolVal(True)
+        for v in _free_vars(pcs):
+            if str(v) not in self.vars:
+                raise Unmodelled(f'path condition mentions auxiliary variable {v}: renaming not supported')
+        from vf.symx import _t
+        sub = [(a.t, _t(b)) for a, b in pairs]
+        return SymBool(z3.substitute(pcs, *sub)) if sub else SymBool(pcs)
+
+    def term_subst(self, x, pairs):
+        import z3
+        from vf.symx import SymInt, _t, _rng
+        lo, hi = _rng(x)
+        if not pairs:
+            return x
+        return SymInt(z3.substitute(_t(x), *[(a.t, _t(b)) for a, b in pairs]), lo, hi)
+
+    def check_reachable(self, label, cond):
+        """Obligation discharged by SAT: some values on this path satisfy cond (used for surjectivity / vacuity)."""
+        if self.mode == 'sym':
+            import z3
+            from vf.symx import Ctx, _b
+            ctx = Ctx.cur
+            self.goals.append(('reach:' + label, z3.Not(_b(cond)), len(ctx.pc), len(ctx.side), len(ctx.assumptions), False))
+
     def eq(self, label, got, want):
         self.observe(label, got)
         self.check(label, got == want)
@@ -263,7 +294,9 @@ def solve_goal(ctx, goal, n_pc, n_side, n_assm, timeout_ms=None, env=None, lemma
     import z3
     total = timeout_ms or GOAL_TIMEOUT_MS
     t0 = time.time()
-    s = _mk_solver(ctx, goal, n_pc, n_assm, min(FIRST_TRY_MS, total), lemmas)
+    # cheap_only: the quick first attempt; otherwise (second call, after the witness search) a plain attempt with half of the
+    # goal's budget -- a goal that needs 9 s must not depend on the machine being idle during an 8 s first attempt
+    s = _mk_solver(ctx, goal, n_pc, n_assm, min(FIRST_TRY_MS, total) if cheap_only else max(total // 2, min(FIRST_TRY_MS, total)), lemmas)
     r = str(s.check())
     if r != 'unknown':
         return r, (s.model() if r == 'sat' else None), time.time() - t0, s, 0
@@ -356,11 +389,23 @@ def run_sym(fn, params=None, seed=0, max_paths=5000, n_validate=2, goal_timeout_
             enough = len(res['models']) >= 3
             r, model, dt, s, nsub = solve_goal(ctx, goal, n_pc, n_side, n_assm, goal_timeout_ms, env, proved, cheap_only=True)
             w = None
-            if r == 'unknown' and witness_search and not enough:
+            is_reach = label.startswith('reach:')
+            if is_reach and r == 'unknown':
+                if _witness(ctx, goal, n_pc, n_assm, env, rnd) is not None:
+                    r = 'sat'
+            if r == 'unknown' and witness_search and not enough and not is_reach:
                 w = _witness(ctx, goal, n_pc, n_assm, env, rnd)
             if r == 'unknown' and w is None and not enough:
                 r, model, dt2, s, nsub = solve_goal(ctx, goal, n_pc, n_side, n_assm, goal_timeout_ms, env, proved)
                 dt += dt2
+            if is_reach:
+                # discharged by a satisfying assignment; 'unsat' means the case can never happen: a violation candidate
+                # that the harness confirms concretely (exhaustive enumeration requested through __exhaust__)
+                if r == 'sat':
+                    r, model = 'unsat', None
+                    res['reach_sat'] = res.get('reach_sat', 0) + 1
+                elif r == 'unsat':
+                    r, model, w = 'unknown', None, dict(__exhaust__=label)
             seen[key] = r
             if is_lemma and r == 'unsat':
                 proved.append(goal)
@@ -482,6 +527,10 @@ def run_conc(fn, values, params=None, seed=0):
     except Exception as e:
         tb = traceback.extract_tb(e.__traceback__)
         in_repo = bool(tb) and '/mpyc/' in tb[-1].filename and '/verif/' not in tb[-1].filename
+        # ... and not below a stub of ours that the code under test called (harness -> repo -> stub -> repo raises)
+        iv = [i for i, fr in enumerate(tb) if '/verif/' in fr.filename]
+        if in_repo and iv and any('/mpyc/' in fr.filename for fr in tb[:iv[-1]]):
+            in_repo = False
         # only an exception raised by the code under test counts as a reproduced failure; anything else is a harness error
         res['status'] = 'exception' if in_repo else 'harness_error'
         res['error'] = f'{type(e).__name__}: {e}\n{traceback.format_exc()[-2500:]}'
